@@ -39,7 +39,7 @@ HEADER = ("From Coq Require Import List ZArith QArith Bool String.\nImport ListN
           "From QV Require Import Base.Py Base.CaseLib Model.Uncert Model.UncertCases.\nOpen Scope Q_scope.\n")
 EXN = {"ValueError": "ValueError", "TypeError": "TypeError", "IndexError": "IndexError", "KeyError": "KeyError"}
 KIND = {"MeasuredValue": 0, "RepeatedlyMeasuredValue": 1, "DerivedValue": 2}
-NUMS = [-2.5, -1, -0.125, 0, 0.0, 0.125, 0.5, 1, 2, 3.5, True]
+NUMS = [-2.5, -1, -0.125, 0, 0.0, 0.125, 0.5, 1, 2, 3.5, True, -1e-9, 0.3 - 0.1 * 3, -1e-300, 1e-9]
 JUNK = [None, "1", "x", [1]]
 
 
